@@ -153,13 +153,17 @@ def r1(ctx):
             ok = False
             continue
         ret, sname, rr = val
-        ok = ok and sname == "Idle" and rr == str(rr0)
+        ok = ok and rr == str(rr0)
         if st == "Idle":
-            ok = ok and ret == "None"
+            ok = ok and ret == "None" and sname == "Idle"
+        elif reported == "same":
+            ok = ok and ret == "Some((start0,%d))" % rr0 and sname == "Idle"
         else:
-            ok = ok and ret == "Some((start0,%d))" % rr0
+            # the result of a session that does not own the slot (our dial failed after the remote's request took the slot
+            # over, or the reverse): the owner is still running - "never two sessions in progress at once" - so nothing is released
+            ok = ok and ret == "None" and sname == "Running"
     ctx.check(ok, "C11.R1", b.path, "transition-table",
-              "(state, origin, resync, reported origin) -> (returns, state', resync'): %s; spec: state := Idle on every path (also when the reported origin differs from the recorded one), the resync flag is reported (Some((start, flag)) iff a session was running) and left untouched" % _fmt(rows), b.sp)
+              "(state, origin, resync, reported origin kind) -> (returns, state', resync'): %s; spec: the session that owns the slot frees it (state := Idle, Some((start, resync flag))); a result of the other kind (dial vs accepted) leaves the slot to its owner and returns None; the resync flag is left untouched" % _fmt(rows), b.sp)
     # ---- set_sync_running
     b = f.body(PS + "set_sync_running")
     heap = {"self": _peer(f, E, "Idle", resync=E.Int(1))}
@@ -206,15 +210,19 @@ def r1(ctx):
                 try:
                     ret, h, ev = E.run(f, ab.path, [E.href("self")], {"self": _peer(f, E, st, og, resync=E.Int(rr0))})
                     sname, sfull = _state_of(f, E, h["self"])
-                    rows[(st, og, rr0)] = (sname if sname == "Idle" else sfull, E.describe(E.field(f, h["self"], PSP, "resync_requested"), f))
+                    rows[(st, og, rr0)] = (sname if sname == "Idle" else sfull, E.describe(E.field(f, h["self"], PSP, "resync_requested"), f), E.describe(ret, f))
                 except E.Unsupported as ex:
-                    rows[(st, og, rr0)] = ("UNSUPPORTED-FORM: %s" % ex, None)
+                    rows[(st, og, rr0)] = ("UNSUPPORTED-FORM: %s" % ex, None, None)
         want = {}
         for st, og in (("Idle", None), ("Running", "Accept"), ("Running", "Connect")):
             for rr0 in (0, 1):
-                want[(st, og, rr0)] = ("Idle" if (st == "Idle" or og == "Connect") else "Running(start0,Accept)", str(rr0))
-        ctx.check(rows == want, "C11.R1", ab.path, "transition-table", "abort_connect: %s; spec: a slot held by our own dial is freed, a slot held by an accepted session (or a free one) and the resync flag are left alone" % rows, ab.sp)
+                freed = og == "Connect"
+                # a report refused because of the declined dial is followed up: the flag is handed to the caller (who dials) and cleared;
+                # when the slot is not ours the flag belongs to the session that owns it and stays
+                want[(st, og, rr0)] = ("Idle" if (st == "Idle" or freed) else "Running(start0,Accept)", "0" if freed else str(rr0), str(rr0) if freed else "0")
+        ctx.check(rows == want, "C11.R1", ab.path, "transition-table", "abort_connect: (state, origin, resync) -> (state', resync', returns) %s; spec: a slot held by our own dial is freed and the queued follow-up is handed to the caller (returned, flag cleared); a slot held by an accepted session (or a free one) and its resync flag are left alone, nothing to follow up" % rows, ab.sp)
         allowed["state"].add(PS + "abort_connect")
+        allowed["resync_requested"].add(PS + "abort_connect")
     nw = 0
     for body in f.bodies.values():
         if not body.path.startswith("engine::") or body.rec.get("derived"):
@@ -342,10 +350,18 @@ def r3(ctx):
     for v in f.adt(CE)["variants"]:
         if v["name"] != "RemoteAbort":
             cases.append((v["name"], E.Err(E.variant(f, CE, v["name"], *[E.Tok("e%d" % i) for i in range(len(v["fields"]))]))))
+    ab_ret = f.bodies.get("engine::state::NamespaceStates::abort_connect")
+    ab_returns_flag = ab_ret is not None and ab_ret.locals[0]["ty"] == "bool"
+    cases2 = []
     for label, res in cases:
+        if label == "RemoteAbort(AlreadySyncing)" and ab_returns_flag:
+            cases2 += [(label + ",report-was-refused-meanwhile", res, 1), (label, res, 0)]
+        else:
+            cases2.append((label, res, 0))
+    for label, res, queued in cases2:
         log = []
 
-        def oracle(kind, name, payload, site):
+        def oracle(kind, name, payload, site, queued=queued):
             if kind == "eq":
                 return None
             if kind == "call":
@@ -354,9 +370,12 @@ def r3(ctx):
                 if name == "on_sync_finished":
                     log.append(("on_sync_finished", names[1:4]))
                     return E.Tok("finished-future")
+                if name == "sync_with_peer":
+                    log.append(("dial", names[1:4]))
+                    return E.UNIT
                 if callee_matches(t, r"engine::state::NamespaceStates::(abort_connect|finish)$"):
                     log.append((name, names[1:3]))
-                    return E.UNIT if name == "abort_connect" else E.NONE
+                    return (E.Int(queued) if ab_returns_flag else E.UNIT) if name == "abort_connect" else E.NONE
             if kind == "await" and name == "finished-future":
                 return E.UNIT
             return None
@@ -366,6 +385,13 @@ def r3(ctx):
         except E.Unsupported as ex:
             got = "UNSUPPORTED-FORM: %s" % ex
         released = any(e[0] in ("on_sync_finished", "finish", "abort_connect") and e[1][:2] == ["namespace", "peer"] for e in log)
+        dials = [e for e in log if e[0] == "dial"]
+        if ab_returns_flag and label.startswith("RemoteAbort(AlreadySyncing)"):
+            # "a report of news that is refused because a session is running leads to exactly one follow-up dial when that session
+            # finishes" - also when it finishes by being declined
+            follow = (len(dials) == 1 and dials[0][1][:2] == ["namespace", "peer"] and "Resync" in str(dials[0][1])) if queued else not dials
+            ctx.check(got == "returns" and follow, "C11.R3", hc.path, "declined-dial-follows-up-a-refused-report[%s]" % ("queued" if queued else "none-queued"),
+                      "%s; calls %s; spec: exactly one follow-up dial (reason Resync) to the same peer iff abort_connect hands back a queued report" % (got, log), hc.sp)
         ctx.check(got == "returns" and released, "C11.R3", hc.path, "dial-completion-releases-slot[%s]" % label,
                   "%s; slot-releasing calls %s; spec: when our dial ends - however - the (namespace, peer) slot it took in start_connect is released "
                   "(finish via on_sync_finished) or released unless an accepted session owns it (abort_connect); returning without either leaves the slot "
@@ -449,7 +475,39 @@ def r3(ctx):
     ctx.floor("C11.R3", 12)
 
 
+def r4(ctx):
+    """the slot of a (document, peer) pair belongs to one session at a time, and results arrive late: the decline of a dial whose
+    slot was taken over by an accepted request - which has meanwhile finished - can arrive when a NEWER dial holds the slot. The
+    release of a declined dial must therefore be able to tell which dial it is about; with (document, peer) alone it frees whatever
+    dial holds the slot, and a second dial to the same peer can be started while the first is in flight."""
+    from . import feval as E
+    f = ctx.facts
+    ab = f.body(PS + "abort_connect")
+    ctx.touch(ab)
+    argc = ab.rec["argc"]
+    if argc <= 1:
+        ctx.bad("C11.R4", ab.path, "stale-decline-cannot-free-a-newer-dial",
+                "abort_connect takes no identification of the dial that was declined (%d parameter besides the document and peer that select the slot): it frees any Running{Connect} slot, also the one of a newer dial" % (argc - 1), ab.sp)
+    else:
+        rows = {}
+        for same in (1, 0):
+            def oracle(kind, a, b2, site, same=same):
+                if kind in ("eq", "cmp") and ("declined" in str(a) + str(b2)):
+                    return bool(same) if kind == "eq" else (0 if same else 1)
+                return None
+            try:
+                args = [E.href("self")] + [E.Tok("declined-dial")] * (argc - 1)
+                ret, h, ev = E.run(f, ab.path, args, {"self": _peer(f, E, "Running", "Connect", resync=E.Int(0))}, oracle)
+                rows[same] = _state_of(f, E, h["self"])[0]
+            except E.Unsupported as ex:
+                rows[same] = "UNSUPPORTED-FORM: %s" % ex
+        ctx.check(rows == {1: "Idle", 0: "Running"}, "C11.R4", ab.path, "stale-decline-cannot-free-a-newer-dial",
+                  "slot held by a dial, decline of {the same dial: %s, an earlier dial: %s}; spec: freed / kept" % (rows.get(1), rows.get(0)), ab.sp)
+    ctx.floor("C11.R4", 1)
+
+
 def run(ctx):
     ctx.run_rule("C11.R1", r1)
     ctx.run_rule("C11.R2", r2)
     ctx.run_rule("C11.R3", r3)
+    ctx.run_rule("C11.R4", r4)
